@@ -27,6 +27,7 @@ type C13Decl struct {
 	UseOff   int      `json:"useOff"`           // byte offset of a use of the name (hover position)
 	Alphabet string   `json:"alphabet"`
 	AliasOf  string   `json:"aliasOf,omitempty"` // alias: the expression it is initialised with
+	ViaSelf  bool     `json:"viaSelf,omitempty"` // the use is `self.NAME` inside a colon method of the member's table
 }
 
 type C13Case struct {
@@ -56,17 +57,21 @@ func genC13(t *rapid.T) C13Case {
 	}
 	n := rapid.IntRange(1, 7).Draw(t, "ndecls")
 	var uses []int // indices into c.Decls
-	needTable := false
+	needTable, needInner := false, false
 	for i := 0; i < n; i++ {
 		d := C13Decl{Name: fmt.Sprintf("nm%d", i+1)}
-		d.Kind = rapid.SampledFrom([]string{"local", "global", "gfunc", "lfunc", "member-func", "member-method", "member-var", "alias"}).Draw(t, "kind")
+		d.Kind = rapid.SampledFrom([]string{"local", "global", "gfunc", "lfunc", "member-func", "member-method", "member-var", "inner-var", "alias"}).Draw(t, "kind")
 		if d.Kind == "alias" && i == 0 {
 			d.Kind = "local"
 		}
 		d.Alphabet = rapid.SampledFrom(alphabets).Draw(t, "alphabet")
-		if strings.HasPrefix(d.Kind, "member-") && !needTable {
+		if (strings.HasPrefix(d.Kind, "member-") || d.Kind == "inner-var") && !needTable {
 			needTable = true
 			b.WriteString("local tbl = {}\n\n")
+		}
+		if d.Kind == "inner-var" && !needInner {
+			needInner = true
+			b.WriteString("tbl.inner = {}\n\n")
 		}
 		text := func() string { return rapid.SampledFrom(c13Words[d.Alphabet]).Draw(t, "ctext") }
 		// comment placement
@@ -99,7 +104,10 @@ func genC13(t *rapid.T) C13Case {
 			if strings.HasPrefix(tgt.Kind, "member-") {
 				d.AliasOf = "tbl." + tgt.Name
 			}
-		case "local", "global", "member-var":
+			if tgt.Kind == "inner-var" {
+				d.AliasOf = "tbl.inner." + tgt.Name
+			}
+		case "local", "global", "member-var", "inner-var":
 			if rapid.Bool().Draw(t, "strLit") {
 				d.Literal = fmt.Sprintf("\"v%d\"", rapid.IntRange(0, 99).Draw(t, "sval"))
 			} else {
@@ -140,6 +148,8 @@ func genC13(t *rapid.T) C13Case {
 			line = "function tbl:" + d.Name + "(" + ps + ") end"
 		case "member-var":
 			line = "tbl." + d.Name + " = " + d.Literal
+		case "inner-var":
+			line = "tbl.inner." + d.Name + " = " + d.Literal
 		}
 		b.WriteString(line)
 		if trailing != "" {
@@ -165,9 +175,24 @@ func genC13(t *rapid.T) C13Case {
 	// uses
 	for _, i := range uses {
 		d := &c.Decls[i]
+		if (d.Kind == "member-var" || d.Kind == "inner-var") && rapid.Bool().Draw(t, "useThroughSelf") {
+			// the member is read through `self` inside a colon method of its table (plain or dotted receiver)
+			recv := "tbl"
+			if d.Kind == "inner-var" {
+				recv = "tbl.inner"
+			}
+			b.WriteString(fmt.Sprintf("function %s:use%d()\n  print(self.", recv, i))
+			d.UseOff = b.Len()
+			d.ViaSelf = true
+			b.WriteString(d.Name + ")\nend\n")
+			continue
+		}
 		b.WriteString("print(")
 		if strings.HasPrefix(d.Kind, "member-") {
 			b.WriteString("tbl.")
+		}
+		if d.Kind == "inner-var" {
+			b.WriteString("tbl.inner.")
 		}
 		d.UseOff = b.Len()
 		b.WriteString(d.Name + ")\n")
